@@ -46,4 +46,3 @@ func (r tapeRand) GenerateString(n int, runes string) string {
 	}
 	return string(b)
 }
-
